@@ -20,7 +20,7 @@ ASSUMPTIONS = ['"re-applying the initial conditions" = setting position and spee
 EXPLANATION = 'exhaustive schedules (split points, units) with a differential oracle between two executions of the real code'
 
 DT = 0.125
-MODELS = ['plain', 'locking', 'overload', 'locking-d0', 'declared-duty-0', 'controlled', 'timeload']
+MODELS = ['plain', 'locking', 'overload', 'locking-d0', 'declared-duty-0', 'rest-in-dead-zone', 'controlled', 'timeload']
 
 
 def bounds(tier):
@@ -51,6 +51,12 @@ def model_spec(name):
                            init={'theta': [0.0, 'rad'], 'w': [0.5, 'rad/s']})
         spec['load'] = ['const', 0.5 * menu.stall_at_output(spec)]
         duty = [0, 0.6, 1, 1, -1, 1, 0, 1, 1, 1, 1, 1, 1, 1, 1, 1]
+    elif name == 'rest-in-dead-zone':
+        # self-locking chain, no load, duty inside the motor's dead zone: at rest with zero torque but NOT held; it starts later
+        spec = menu.assign([('J', 'Wg'), ('W', 'Ww')], motor=menu.MOTOR_CUR, locking=True,
+                           init={'theta': [0.0, 'rad'], 'w': [0.0, 'rad/s']})
+        spec['load'] = ['const', 0.0]
+        duty = [0.03, 0.03, 0.03, 0.03, 0.03, 1, 1, 1, 0.03, 0.03, 1, 1, 1, 1, 1, 1]
     elif name == 'declared-duty-0':
         # the user declares duty cycle 0 on the motor before the first run; the control commands 0.8 from instant 0 on
         spec = menu.assign([('J', 'Wg'), ('W', 'Ww')], motor=menu.MOTOR_CUR, locking=True,
